@@ -71,7 +71,7 @@ fn sample_points(rules: &[PRule], bounds: &[(f64, f64)], g: &mut Gen, cap: usize
         let mut c: BTreeSet<i64> = [-(Q as i64), 0, Q as i64].into_iter().filter(|e| !touching(*e)).collect();
         let ks: Vec<i64> = los.union(&his).copied().collect();
         for e in &ks { for x in [e - 1, *e, e + 1] { if !touching(x) { c.insert(x); } } }
-        for w in ks.windows(2) { c.insert((w[0] + w[1]) / 2); }
+        for w in ks.windows(2) { let m = (w[0] + w[1]).div_euclid(2); if !touching(m) { c.insert(m); } }
         per_axis.push(c.into_iter().map(|v| v as f64 / Q).filter(|v| *v >= bounds[a].0 && *v <= bounds[a].1).collect());
     }
     let total: usize = per_axis.iter().map(|v| v.len()).product();
